@@ -1035,6 +1035,165 @@ def run_rst_case(case: dict) -> Outcome:
 
 
 # ----------------------------------------------------------------------------------------------
+# ----------------------------------------------------------------------------------------------
+# layer "dead-connection": one client's connection dies with an error that is *not* a ConnectionError (ETIMEDOUT after
+# failed keep-alive probes - a TimeoutError! -, EHOSTUNREACH, ENETDOWN): from then on every read of that transport raises
+# at once.  Its handler is an ordinary tolerant one (idle-timeout loop `except TimeoutError: continue`, or catch-all and
+# go on).  Whatever the server makes of that client, the event loop must keep running between two errors thrown into
+# the handler, so that the healthy clients are still served.
+
+DEAD_ERRNOS = {"ETIMEDOUT": 110, "EHOSTUNREACH": 113, "ENETDOWN": 100, "ENETUNREACH": 101}
+# connection errors proper: the documented behaviour is a disconnection (generator closed, on_disconnection() runs, nothing
+# is thrown into the handler)
+DISCONNECT_ERRORS = {"ECONNRESET": ConnectionResetError, "ECONNABORTED": ConnectionAbortedError, "EPIPE": BrokenPipeError}
+STARVE_LIMIT = 50  # errors thrown into one handler without the event loop running in between
+
+
+class _Starved(Exception):
+    pass
+
+
+async def _dead_connection_main(case: dict) -> dict:
+    from easynetwork.protocol import BufferedStreamProtocol, StreamProtocol
+    from easynetwork.serializers.line import StringLineSerializer
+    from easynetwork.servers.async_tcp import AsyncTCPNetworkServer
+    from easynetwork.servers.handlers import AsyncStreamRequestHandler, INETClientAttribute
+
+    from ..memtransports import MemStreamTransport, VerifBackend
+
+    loop = asyncio.get_running_loop()
+    backend = VerifBackend()
+    res: dict[str, Any] = {"thrown": 0, "thrown_injected": 0, "starved": False, "max_run": 0, "disconnected": [], "handler_errors": []}
+    FAULTY = 41000
+
+    class Handler(AsyncStreamRequestHandler):  # type: ignore[type-arg]
+        async def handle(self, client: Any) -> Any:
+            port = int(client.extra(INETClientAttribute.remote_address).port)
+            if port != FAULTY:
+                while True:
+                    request = yield
+                    await client.send_packet(request)
+            last_tick = -1
+            run = 0
+            while True:
+                try:
+                    request = yield case["idle_timeout"]
+                except GeneratorExit:
+                    raise
+                except BaseException as exc:  # noqa: BLE001
+                    tolerated = isinstance(exc, TimeoutError) if case["handler"] == "idle-timeout" else isinstance(exc, Exception)
+                    if not tolerated:
+                        res["handler_errors"].append(type(exc).__name__)
+                        raise
+                    res["thrown"] += 1
+                    if getattr(exc, "errno", None) is not None:  # (an idle time-out of the yielded timeout carries no errno)
+                        res["thrown_injected"] += 1
+                    tick = loop.ticks  # type: ignore[attr-defined]
+                    run = run + 1 if tick == last_tick else 1
+                    last_tick = tick
+                    res["max_run"] = max(res["max_run"], run)
+                    if run >= STARVE_LIMIT:
+                        res["starved"] = True
+                        raise _Starved(f"{run} errors thrown into the handler within one event-loop iteration") from exc
+                    continue
+                await client.send_packet(request)
+
+        async def on_disconnection(self, client: Any) -> None:
+            res["disconnected"].append(int(client.extra(INETClientAttribute.remote_address).port))
+
+    proto: Any = BufferedStreamProtocol(StringLineSerializer()) if case["buffered"] else StreamProtocol(StringLineSerializer())
+    srv = AsyncTCPNetworkServer(None, 0, proto, Handler(), backend)
+    up = asyncio.Event()
+    serve_task = asyncio.create_task(srv.serve_forever(is_up_event=up))
+    await up.wait()
+    listener = backend.tcp_listeners[-1]
+    mems: dict[int, MemStreamTransport] = {}
+    for port in [FAULTY] + [42001 + i for i in range(case["healthy"])]:
+        m = MemStreamTransport(backend, peername=("127.0.0.1", port))
+        mems[port] = m
+        listener.connect(m)
+    expected: dict[int, list[bytes]] = {p: [] for p in mems if p != FAULTY}
+    t = 0.25
+    for j, gap in enumerate(case["request_gaps"]):
+        t += gap
+        for p in expected:
+            payload = f"h{p}-{j}\n".encode()
+            expected[p].append(payload)
+            loop.call_at(t, mems[p].feed, payload)
+    if case["faulty_request_first"]:
+        loop.call_at(0.125, mems[FAULTY].feed, b"hello\n")
+    exc: BaseException
+    if case["errno"] in DISCONNECT_ERRORS:
+        exc = DISCONNECT_ERRORS[case["errno"]](104, case["errno"])
+    elif case["errno"] == "ETIMEDOUT":
+        exc = TimeoutError(DEAD_ERRNOS["ETIMEDOUT"], "Connection timed out")
+    else:
+        exc = OSError(DEAD_ERRNOS[case["errno"]], case["errno"])
+    loop.call_at(case["fault_at"], mems[FAULTY].feed_error, exc)
+    await asyncio.sleep(t + 2.0)
+    res["serving"] = not serve_task.done()
+    res["echoes"] = {p: bytes(mems[p].sent) for p in expected}
+    res["expected"] = {p: b"".join(v) for p, v in expected.items()}
+    res["faulty_closed"] = mems[FAULTY].closed
+    res["disconnected_before_shutdown"] = list(res["disconnected"])
+    if not serve_task.done():
+        await srv.shutdown()
+    await asyncio.gather(serve_task, return_exceptions=True)
+    await srv.server_close()
+    return res
+
+
+def run_dead_connection_case(case: dict) -> Outcome:
+    from ..vloop import Deadlock, run_virtual
+
+    logging.disable(logging.CRITICAL)
+    try:
+        r = run_virtual(_dead_connection_main, case, max_ticks=3_000_000)
+    except Deadlock as exc:
+        raise Violation("deadlock", f"server with a dead connection does not make progress: {str(exc)[:800]}") from exc
+    detail = {"errno": case["errno"], "handler": case["handler"], "thrown": r["thrown"], "max_run": r["max_run"]}
+    if r["starved"]:
+        raise Violation(
+            "event-loop-starved",
+            f"the dead connection's error ({case['errno']}) was thrown into its (tolerant) handler {STARVE_LIMIT} times in a row without the "
+            "event loop running in between: every other client is starved for as long as that handler keeps going",
+            **detail,
+        )
+    if not r["serving"]:
+        raise Violation("server-stopped", "serve_forever() ended because of one dead connection", **detail)
+    if case["errno"] in DISCONNECT_ERRORS:
+        if r["thrown_injected"]:
+            raise Violation(
+                "disconnect-thrown-into-handler",
+                f"{case['errno']} on the client's connection was thrown into its request handler {r['thrown_injected']} time(s) instead of ending the connection",
+                **detail,
+            )
+        if FAULTY_PORT_DEAD not in r["disconnected_before_shutdown"] or not r["faulty_closed"]:
+            raise Violation("disconnection-hook", f"{case['errno']}: on_disconnection() did not run / the connection was not closed", **detail)
+    for p, exp in r["expected"].items():
+        if r["echoes"][p] != exp:
+            raise Violation("healthy-client-affected", f"healthy client {p} got {len(r['echoes'][p])} of {len(exp)} echoed bytes", **detail)
+    classes = [f"errno-{case['errno']}", f"handler-{case['handler']}", "handler-left" if r["handler_errors"] or FAULTY_PORT_DEAD in r["disconnected"] else "handler-kept-going"]
+    return Outcome(nontrivial=r["thrown"] >= 2, classes=tuple(classes), note=f"thrown={r['thrown']} longest run within one loop iteration={r['max_run']}")
+
+
+FAULTY_PORT_DEAD = 41000
+
+
+@st.composite
+def st_dead_connection_case(draw: st.DrawFn, tier: str) -> dict:
+    return {
+        "errno": draw(st.sampled_from(sorted(DEAD_ERRNOS) + sorted(DISCONNECT_ERRORS))),
+        "handler": draw(st.sampled_from(["idle-timeout", "catch-all"])),
+        "idle_timeout": draw(st.sampled_from([None, 0.5, 5.0])),
+        "buffered": draw(st.booleans()),
+        "healthy": draw(st.integers(1, 2)),
+        "request_gaps": draw(st.lists(st.sampled_from([0.25, 0.5, 1.0]), min_size=1, max_size=4)),
+        "fault_at": draw(st.sampled_from([0.375, 0.625, 1.125, 2.125])),
+        "faulty_request_first": draw(st.booleans()),
+    }
+
+
 
 CHECK = Check(
     id="C17",
@@ -1044,12 +1203,16 @@ CHECK = Check(
         "until the virtual handshake timeout / reset / EOF, or an accepted socket that is already disconnected; or a transport-level "
         "send/recv failure) interpreted by one generic request handler, x 1-3 healthy echo clients with generated request times and "
         "virtual service times, x TCP plain | TCP TLS | UDP, on the virtual-time loop over in-memory listeners (layer faults); real "
-        "loopback connections reset with SO_LINGER 0 next to healthy ping-pong clients (layer rst); non-trivial = the fault fires while "
+        "loopback connections reset with SO_LINGER 0 next to healthy ping-pong clients (layer rst); layer dead-connection: the faulty "
+        "client's transport raises a persistent ETIMEDOUT/EHOSTUNREACH/ENETDOWN/ENETUNREACH or ECONNRESET/ECONNABORTED/EPIPE from a generated "
+        "time on while its handler is a tolerant idle-timeout or catch-all loop, next to 1-2 healthy echo clients, non-trivial = the error "
+        "was thrown into the handler at least twice; otherwise non-trivial = the fault fires while "
         "at least one healthy client has a request fed and not yet answered; distinct = sha1 of the canonical case JSON"
     ),
     layers=[
         Layer("faults", st_case, run_faults_case, {"quick": 2000, "thorough": 8000}),
         Layer("rst", st_rst_case, run_rst_case, {"quick": 20, "thorough": 40}, case_timeout_s=120.0),
+        Layer("dead-connection", st_dead_connection_case, run_dead_connection_case, {"quick": 150, "thorough": 800}),
     ],
     assumptions=[
         "only Exception subclasses are injected (BaseExceptions such as KeyboardInterrupt are designed to stop the server)",
